@@ -244,7 +244,7 @@ def frames(case):
     return alternatives, individuals
 
 
-def build_context(case, raw_partition=False, share=None):
+def build_context(case, raw_partition=False, share=None, cnl_nests=None):
     from biogeme.partition import Partition
     from biogeme.sampling_of_alternatives import SamplingContext, CrossVariableTuple
 
@@ -256,6 +256,8 @@ def build_context(case, raw_partition=False, share=None):
         seg2 = [set(s) for s in case['mev']['segments']]
         kw['mev_partition'] = Partition(seg2, full_set=set().union(*seg2))
         kw['mev_sample_sizes'] = list(case['mev']['sizes'])
+    if cnl_nests is not None:
+        kw['cnl_nests'] = cnl_nests
     if share is None:
         share = bool(case.get('share'))
     sh = {} if share else None
@@ -765,6 +767,97 @@ def check_nested_full(ctx, res, case, rng, nests_def=None):
                         {**sub, 'row': r}, a, b, where='GenerateModel.get_nested_logit')
 
 
+def full_reference(case, make_model):
+    """the model on the full choice set: one column per (alternative, attribute), utilities written out"""
+    import pandas as pd
+    import biogeme.database as bdb
+    from biogeme.expressions import Variable
+
+    cols = case['cols']
+    comb = dict((n, f) for n, f in case['combined'])
+    data = {case['choice_col']: [float(c) for c in case['choices']]}
+    for j, c in enumerate(case['icols']):
+        data[c] = [r[j] for r in case['irows']]
+    for p, vals in enumerate(case['values']):
+        for j, c in enumerate(cols):
+            data[f'F{p}__{c}'] = [vals[j]] * len(case['choices'])
+
+    def subst(f, p, depth=0):
+        if f[0] == 'v':
+            if f[1] in cols:
+                return ['v', f'F{p}__{f[1]}']
+            if f[1] in comb and depth < 5:
+                return subst(comb[f[1]], p, depth + 1)
+            return f
+        if f[0] in ('c', 'b'):
+            return f
+        return [f[0]] + [subst(x, p, depth) for x in f[1:]]
+
+    with core.scratch():
+        fdb = bdb.Database('full', pd.DataFrame(data))
+        V = {int(i): build_expr(subst(case['utility'], p)) for p, i in enumerate(case['ids'])}
+        full = make_model(V, Variable(case['choice_col']))
+        return [float(v) for v in np.atleast_1d(full.get_value_c(database=fdb, prepare_ids=True))]
+
+
+def check_cnl_full(ctx, res, case, rng, nests_def=None):
+    """complete sampling (both samples): the cross-nested logit generated on the sample equals the
+    cross-nested logit on the full choice set (numerical relation through the real engine)"""
+    from biogeme.expressions import Beta
+    from biogeme import models
+    from biogeme.nests import OneNestForCrossNestedLogit, NestsForCrossNestedLogit
+    from biogeme.sampling_of_alternatives import ChoiceSetsGeneration, GenerateModel
+
+    if nests_def is None:
+        pool = list(case['ids'])
+        rng.shuffle(pool)
+        n_shared = rng.randint(0, min(2, max(0, len(pool) - 2)))
+        shared, rest = pool[:n_shared], pool[n_shared:]
+        alone = rest[:rng.randint(0, 1)] if len(rest) > 2 else []
+        rest = rest[len(alone):]
+        h = rng.randint(1, max(1, len(rest) - 1))
+        groups = [rest[:h], rest[h:]]
+        nests_def = []
+        for j, g in enumerate(groups):
+            al = [[int(a), 1.0] for a in g]
+            for s_ in shared:
+                w = rng.choice([0.25, 0.5, 0.75])
+                al.append([int(s_), w if j == 0 else 1.0 - w])
+            if al:
+                nests_def.append([rng.choice([1.0, 1.25, 1.5, 2.0, 3.0]), sorted(al)])
+    nests_def = [[float(mu), [[int(a), float(w)] for a, w in al]] for mu, al in nests_def]
+    if not nests_def:
+        return
+    sub = {'kind': 'cnl', 'case': slim(case), 'nests': nests_def}
+
+    def mk_nests():
+        return NestsForCrossNestedLogit(choice_set=list(case['ids']), tuple_of_nests=tuple(
+            OneNestForCrossNestedLogit(nest_param=Beta(f'MU{j}', mu, 1.0, None, 0), dict_of_alpha={a: w for a, w in al}, name=f'n{j}')
+            for j, (mu, al) in enumerate(nests_def)))
+
+    try:
+        with core.scratch():
+            context = build_context(case, cnl_nests=mk_nests())
+            gen = ChoiceSetsGeneration(context)
+            np.random.seed(case['np_seed'])
+            db = gen.sample_and_merge(recycle=False)
+            ll = GenerateModel(context).get_cross_nested_logit()
+            sampled = [float(v) for v in np.atleast_1d(ll.get_value_c(database=db, prepare_ids=True))]
+        ref = full_reference(case, lambda V, choice: models.logcnl(V, None, mk_nests(), choice))
+    except Exception as e:  # noqa: BLE001
+        res.count({'cnl_raises': sub['nests'], 'seed': case['np_seed']})
+        res.violate(f'get_cross_nested_logit / logcnl raises on a valid context: {type(e).__name__}: {e}'[:300], sub, core.exc_kind(e), 'log likelihoods',
+                    where='GenerateModel.get_cross_nested_logit')
+        return
+    for r, (a, b) in enumerate(zip(sampled, ref)):
+        res.count({'cnl': nests_def, 'segments': case['segments'], 'mev': case['mev']['segments'], 'row': r, 'seed': case['np_seed']}, nontrivial=True)
+        res.tally('cnl_full_sample_equiv_checked')
+        if not close(a, b, 1e-8, 1e-8):
+            res.violate('complete sampling: log likelihood of get_cross_nested_logit() differs from the cross-nested logit on the full choice set',
+                        {**sub, 'row': r}, a, b, where='GenerateModel.get_cross_nested_logit')
+            return
+
+
 # ----------------------------------------------------------------------------- validation streams
 
 
@@ -964,6 +1057,7 @@ def check(ctx) -> Result:
             continue
         case['share'] = False
         check_nested_full(ctx, res, case, rng)
+        check_cnl_full(ctx, res, case, rng)
         done += 1
     for _ in range(ctx.n(150, 2000)):
         case, kind, raw = gen_context_case(rng)
@@ -1015,7 +1109,10 @@ def search(ctx, res, broken):
 
 
 def _replay_nested(shim, res, sub):
-    check_nested_full(shim, res, sub['case'], None, nests_def=sub['nests'])
+    if sub.get('kind') == 'cnl':
+        check_cnl_full(shim, res, sub['case'], None, nests_def=sub['nests'])
+    else:
+        check_nested_full(shim, res, sub['case'], None, nests_def=sub['nests'])
 
 
 def replay(ctx, obj):
@@ -1070,7 +1167,7 @@ def replay(ctx, obj):
     elif kind == 'merge':
         check_merge(shim, r, sub['case'])
         out.update({'property_fails': bool(r.violations), 'violations': r.violations[:2]})
-    elif kind == 'nested':
+    elif kind in ('nested', 'cnl'):
         r2 = Result()
         _replay_nested(shim, r2, sub)
         out.update({'property_fails': bool(r2.violations), 'violations': r2.violations[:2]})
